@@ -22,6 +22,23 @@ Proof.
   - destruct (f x); destruct (f y); reflexivity.
 Qed.
 
+(* the address / the parents as "name/" are among the lookups; so is the "self:"
+   port of each directory on the way *)
+Lemma flagged_in_lookups : forall cur ic,
+  In ic (flagged (ancestors cur)) ->
+  In {| lk_path := lookup_path ic; lk_base := snd ic; lk_parent := fst ic |} (lookups cur).
+Proof.
+  intros cur ic H. unfold lookups. apply in_flat_map. exists ic. split; [assumption | left; reflexivity].
+Qed.
+
+Lemma self_in_lookups : forall cur ic s,
+  In ic (flagged (ancestors cur)) -> rel2abs self_name (snd ic) = Some s ->
+  In {| lk_path := s; lk_base := snd ic; lk_parent := fst ic |} (lookups cur).
+Proof.
+  intros cur ic s H Hs. unfold lookups. apply in_flat_map. exists ic. split; [assumption|].
+  rewrite Hs. right. left. reflexivity.
+Qed.
+
 (* ---- same_edges ------------------------------------------------------------------ *)
 Section KeysExt.
   Variable apropos : str -> option pmeta.
@@ -33,10 +50,10 @@ Section KeysExt.
   Proof.
     induction fuel as [|f IH]; intros orig cur; simpl; [reflexivity|].
     apply fold_left_ext. intros acc ic.
-    destruct (apropos (if fst ic then snd ic ++ [slash] else snd ic)) as [m|]; [|reflexivity].
+    destruct (apropos (lk_path ic)) as [m|]; [|reflexivity].
     apply fold_left_ext. intros acc' e.
     destruct acc' as [l|]; [|reflexivity].
-    destruct (rel2abs e (snd ic)) as [t|]; [|reflexivity].
+    destruct (resolve_entry (lk_parent ic) (port_name m) e (lk_base ic)) as [t|]; [|reflexivity].
     destruct (str_eqb t orig || str_eqb t cur); [reflexivity|].
     rewrite same_members, IH. reflexivity.
   Qed.
@@ -112,26 +129,26 @@ Section Complete.
   (* what one entry contributes *)
   Variables orig start : str.      (* the message's address; the address this scan started from *)
 
-  Definition entry_deps (f : nat) (c e : str) : option (list str) :=
-    match rel2abs e c with
+  Definition entry_deps (f : nat) (par : bool) (name c e : str) : option (list str) :=
+    match resolve_entry par name e c with
     | Some t => if str_eqb t orig || str_eqb t start then Some []
                 else if has_key keys t then Some [t] else scan_deps apropos keys f orig t
     | None => None
     end.
 
-  Definition level_step (f : nat) (acc : option (list str)) (ic : bool * str) : option (list str) :=
-    match apropos (if fst ic then snd ic ++ [slash] else snd ic) with
+  Definition level_step (f : nat) (acc : option (list str)) (ic : lookup) : option (list str) :=
+    match apropos (lk_path ic) with
     | None => acc
-    | Some m => fold_left (acc_step str str (entry_deps f (snd ic))) (dep_values m) acc
+    | Some m => fold_left (acc_step str str (entry_deps f (lk_parent ic) (port_name m) (lk_base ic))) (dep_values m) acc
     end.
 
   Lemma scan_deps_unfold : forall f,
-    scan_deps apropos keys (S f) orig start = fold_left (level_step f) (flagged (ancestors start)) (Some []).
+    scan_deps apropos keys (S f) orig start = fold_left (level_step f) (lookups start) (Some []).
   Proof.
     intros f. simpl. apply fold_left_ext. intros acc ic. unfold level_step.
-    destruct (apropos (if fst ic then snd ic ++ [slash] else snd ic)) as [m|]; [|reflexivity].
+    destruct (apropos (lk_path ic)) as [m|]; [|reflexivity].
     apply fold_left_ext. intros acc' e. unfold acc_step, entry_deps.
-    destruct acc' as [l|]; destruct (rel2abs e (snd ic)) as [t|]; try reflexivity.
+    destruct acc' as [l|]; destruct (resolve_entry (lk_parent ic) (port_name m) e (lk_base ic)) as [t|]; try reflexivity.
     destruct (str_eqb t orig || str_eqb t start); [rewrite app_nil_r; reflexivity|].
     destruct (has_key keys t); [reflexivity|].
     destruct (scan_deps apropos keys f orig t); reflexivity.
@@ -145,15 +162,15 @@ Section Complete.
 
   Lemma level_some : forall f ics l0 r, fold_left (level_step f) ics (Some l0) = Some r ->
     incl l0 r /\
-    forall ic m e, In ic ics -> apropos (if fst ic then snd ic ++ [slash] else snd ic) = Some m ->
+    forall ic m e, In ic ics -> apropos (lk_path ic) = Some m ->
                    In e (dep_values m) ->
-                   exists l', entry_deps f (snd ic) e = Some l' /\ incl l' r.
+                   exists l', entry_deps f (lk_parent ic) (port_name m) (lk_base ic) e = Some l' /\ incl l' r.
   Proof.
     induction ics as [|ic ics IH]; intros l0 r H; simpl in H.
     - inversion H; subst. split; [apply incl_refl | intros ? ? ? []].
     - unfold level_step at 2 in H.
-      destruct (apropos (if fst ic then snd ic ++ [slash] else snd ic)) as [m|] eqn:Ea.
-      + destruct (fold_left (acc_step str str (entry_deps f (snd ic))) (dep_values m) (Some l0)) as [l1|] eqn:E1;
+      destruct (apropos (lk_path ic)) as [m|] eqn:Ea.
+      + destruct (fold_left (acc_step str str (entry_deps f (lk_parent ic) (port_name m) (lk_base ic))) (dep_values m) (Some l0)) as [l1|] eqn:E1;
           [|rewrite level_none in H; discriminate].
         destruct (acc_some _ _ _ _ _ _ E1) as [Hi1 Hx1].
         destruct (IH _ _ H) as [Hi Hx]. split.
@@ -173,9 +190,9 @@ Section Complete.
      a line is among the addresses the message is made to wait for *)
   Theorem scan_complete : forall fuel r ic m e t,
     scan_deps apropos keys fuel orig start = Some r ->
-    In ic (flagged (ancestors start)) ->
-    apropos (if fst ic then snd ic ++ [slash] else snd ic) = Some m ->
-    In e (dep_values m) -> rel2abs e (snd ic) = Some t -> has_key keys t = true ->
+    In ic (lookups start) ->
+    apropos (lk_path ic) = Some m ->
+    In e (dep_values m) -> resolve_entry (lk_parent ic) (port_name m) e (lk_base ic) = Some t -> has_key keys t = true ->
     t <> orig -> t <> start ->
     In t r.
   Proof.
@@ -219,9 +236,9 @@ Section Pushed.
   Theorem edges_complete : forall (ms : list (message A)) ps k o ic m e t i,
     pushes A apropos fuel ms = Some ps ->
     In k (map_keys A ms) -> index_of A k ms = Some o ->
-    In ic (flagged (ancestors k)) ->
-    apropos (if fst ic then snd ic ++ [slash] else snd ic) = Some m ->
-    In e (dep_values m) -> rel2abs e (snd ic) = Some t ->
+    In ic (lookups k) ->
+    apropos (lk_path ic) = Some m ->
+    In e (dep_values m) -> resolve_entry (lk_parent ic) (port_name m) e (lk_base ic) = Some t ->
     index_of A t ms = Some i -> has_key (map_keys A ms) t = true -> t <> k ->
     In (i, o) ps.
   Proof.
@@ -235,5 +252,36 @@ Section Pushed.
     apply Hinc. apply in_flat_map. exists t. split.
     - eapply scan_complete; eassumption.
     - rewrite Hi. left. reflexivity.
+  Qed.
+
+  (* the two kinds of lookups spelt out: the port / its parents ... *)
+  Corollary edges_complete_port : forall (ms : list (message A)) ps k o (ic : bool * str) m e t i,
+    pushes A apropos fuel ms = Some ps ->
+    In k (map_keys A ms) -> index_of A k ms = Some o ->
+    In ic (flagged (ancestors k)) ->
+    apropos (if fst ic then snd ic ++ [slash] else snd ic) = Some m ->
+    In e (dep_values m) -> resolve_entry (fst ic) (port_name m) e (snd ic) = Some t ->
+    index_of A t ms = Some i -> has_key (map_keys A ms) t = true -> t <> k ->
+    In (i, o) ps.
+  Proof.
+    intros ms ps k o ic m e t i Hp Hk Ho Hic Hm He Hr Hi Hkey Hne.
+    apply flagged_in_lookups in Hic.
+    exact (edges_complete ms ps k o _ m e t i Hp Hk Ho Hic Hm He Hr Hi Hkey Hne).
+  Qed.
+
+  (* ... and the "self:" port of every directory above the address
+     (rSelf(.., rEnabledBy(x)): x is applied before every other line below that directory) *)
+  Corollary edges_complete_self : forall (ms : list (message A)) ps k o (ic : bool * str) s m e t i,
+    pushes A apropos fuel ms = Some ps ->
+    In k (map_keys A ms) -> index_of A k ms = Some o ->
+    In ic (flagged (ancestors k)) ->
+    rel2abs self_name (snd ic) = Some s -> apropos s = Some m ->
+    In e (dep_values m) -> resolve_entry (fst ic) (port_name m) e (snd ic) = Some t ->
+    index_of A t ms = Some i -> has_key (map_keys A ms) t = true -> t <> k ->
+    In (i, o) ps.
+  Proof.
+    intros ms ps k o ic s m e t i Hp Hk Ho Hic Hs Hm He Hr Hi Hkey Hne.
+    pose proof (self_in_lookups _ _ _ Hic Hs) as Hl.
+    exact (edges_complete ms ps k o _ m e t i Hp Hk Ho Hl Hm He Hr Hi Hkey Hne).
   Qed.
 End Pushed.
